@@ -16,6 +16,17 @@
               names / rel are the names and the hard / soft dependencies of
               the real task objects (tasks numbered dependencies first).
 
+   "fill"     e.n filler requests, numbered x = e.start .. e.start + e.n - 1,
+              were made one after the other: request x is the template
+              e.templates[(x % number of templates) + 1] with the function
+              "fill<x>" (use) resp. the additional last argument "fill<x>"
+              (make) -- distinct cheap requests that nothing else in the
+              history makes; e.resps[k] is the identity class of the k-th
+              answer (0 = an exception).  The tasks are not executed.  The
+              block enters the history request by request, so that every
+              later answer is judged against the fillers as well; the block
+              itself is judged by Factory!BlockInj / BlockErrorOK.
+
    The step clauses of Factory are evaluated on every event; every failing
    <<trace id, step, clause>> is collected (total verdict). *)
 EXTENDS Integers, Sequences, FiniteSets, TLC, Json, IOUtils
@@ -63,6 +74,24 @@ CollectFailing(e) ==
        \/ c = "Closure" /\ e.returned /\ ~F!CollectOK(r, J, e.collected)
        \/ c = "Unique" /\ ~F!RejectOK(r, NamesOf(e), J, e.rejected)}
 
+FillTag(x) == "fill" \o ToString(x)
+FillReq(e, k) == LET x == e.start + k - 1
+                     q == ReqOf(e.templates[(x % Len(e.templates)) + 1]) IN
+                 IF q.kind = "use" THEN [q EXCEPT !.func = FillTag(x)] ELSE [q EXCEPT !.args = Append(q.args, FillTag(x))]
+FillHist(e) == [k \in 1 .. e.n |-> [req |-> FillReq(e, k), resp |-> e.resps[k]]]
+FillBehav == [kind |-> "fill", func |-> "-", pos |-> <<>>, kw |-> {}, fac |-> "-", args |-> <<>>, hard |-> {}, soft |-> {}]
+FillFailing(e) == {c \in {"Inj", "ErrorOK"} : \/ c = "Inj" /\ ~F!BlockInj(hist, e.resps)
+                                              \/ c = "ErrorOK" /\ ~F!BlockErrorOK(hist, e.resps)}
+(* the same request by request with the step clauses (quadratic: for the short blocks, as a check of the block clauses) *)
+SlowMax == 12
+FillFailingSlow(e) ==
+   LET fh == FillHist(e)  all == hist \o fh IN
+   {c \in {"Same", "Inj", "ErrorOK"} :
+       \E k \in 1 .. e.n : LET h == SubSeq(all, 1, Len(hist) + k - 1) IN
+           \/ c = "Same" /\ ~F!StepSame(h, fh[k].req, fh[k].resp)
+           \/ c = "Inj" /\ ~F!StepInj(h, fh[k].req, fh[k].resp)
+           \/ c = "ErrorOK" /\ ~F!StepErrorOK(h, fh[k].req, fh[k].resp)}
+
 Record(new) == IF new = {} THEN TRUE ELSE TLCSet(1, TLCGet(1) \cup new)
 
 TInit == /\ i = 1 /\ TLCSet(1, {})
@@ -81,6 +110,14 @@ TStep ==
               /\ Record({<<e.tid, e.step, c>> : c \in ReqFailing(e)})
               /\ hist' = Append(hist, [req |-> ReqOf(e.req), resp |-> e.resp])
               /\ behav' = IF e.resp = Len(behav) + 1 THEN Append(behav, ObsOf(e.obs)) ELSE behav
+              /\ UNCHANGED <<op, rel, tname, job, visited, frontier, cdone, rejected>>
+        [] e.op = "fill" ->
+              LET newids == {a \in Set(e.resps) : a > Len(behav)} IN
+              /\ Record({<<e.tid, e.step, c>> : c \in FillFailing(e)}
+                        \cup (IF e.n <= SlowMax /\ FillFailingSlow(e) # FillFailing(e)
+                              THEN {<<e.tid, e.step, "BlockMismatch">>} ELSE {}))
+              /\ hist' = hist \o FillHist(e)
+              /\ behav' = behav \o [k \in 1 .. Cardinality(newids) |-> FillBehav]
               /\ UNCHANGED <<op, rel, tname, job, visited, frontier, cdone, rejected>>
         [] e.op = "collect" ->
               LET r == RelOf(e)  J == Set(e.job)  reach == F!Reach(r, J) IN
